@@ -15,7 +15,7 @@ from translate import search_constants
 
 MAXT = 0xFFFFFFFF
 START = 1000.0
-ORDER = {'E': 0, 'R': 1, 'S': 2, 'X': 3}
+ORDER = {'E': 0, 'R': 1, 'S': 2, 'X': 3, 'T': 4, 'A': 5}
 
 
 # ------------------------------------------------------------------------------------------------
@@ -75,21 +75,52 @@ def _run_impl(case: dict) -> dict:
             objs.append(req)
             return len(objs) - 1
 
+        # ---- several listeners per event class (cfg['lis'] = {'S': [...], 'R': [...], 'X': [...]}): the recorders
+        # below are the FIRST listener of their class (they see the moment of the emission); the extra listeners
+        # are registered after them, in the given order. Every listener keeps a ledger of what it was told.
+        lis = cfg.get('lis') or {}
+        cur = [0]                 # index of the op being executed (len(case['ops']) = end of case)
+        lrec = {'prim': [], 'enter': [], 'exit': []}
+        robjs: list = []          # SearchResult objects (strong refs); index = result id
+        by_ticket: dict = {}      # ticket -> rid of the request last announced with it (never forgotten)
+        emissions: list = []      # SearchRequestRemovedEvent emissions: [rid, ticket, task that runs emit()]
+
+        def res_id(res):
+            for i, o in enumerate(robjs):
+                if o is res:
+                    return i
+            robjs.append(res)
+            return len(robjs) - 1
+
+        def ev_key(cls, e):
+            return [rid_of(e.query), res_id(e.result) if cls == 'R' else 0]
+
         def on_sent(e):
             r = rid_of(e.query)
             if e.query.ticket in tracker:
                 flags['clobber'] = True
             tracker[e.query.ticket] = r
+            by_ticket[e.query.ticket] = r
             events.append([now(), 'S', e.query.ticket, r, e.query.search_type.name, None])
+            if lis:
+                lrec['prim'].append(['S', now()] + ev_key('S', e) + [cur[0]])
 
         def on_removed(e):
             r = rid_of(e.query)
             if tracker.get(e.query.ticket) == r:
                 del tracker[e.query.ticket]
             events.append([now(), 'X', e.query.ticket, r, None, None])
+            if lis:
+                lrec['prim'].append(['X', now()] + ev_key('X', e) + [cur[0]])
+                try:
+                    emissions.append([r, e.query.ticket, asyncio.current_task()])
+                except RuntimeError:
+                    pass
 
         def on_result(e):
             events.append([now(), 'R', e.query.ticket, rid_of(e.query), None, e.result.ticket])
+            if lis:
+                lrec['prim'].append(['R', now()] + ev_key('R', e) + [cur[0]])
 
         bus.register(SearchRequestSentEvent, on_sent)
         bus.register(SearchRequestRemovedEvent, on_removed)
@@ -130,6 +161,87 @@ def _run_impl(case: dict) -> dict:
                 if not g.done():
                     g.set_result(None)
 
+        lgates: list = []         # [future, cls, idx, rid, ticket] of listeners waiting on a gate
+
+        def make_listener(cls, idx, spec):
+            kind = spec[0]
+            seen = [0]
+            if kind not in ('plain', 'raise', 'remove', 'async', 'yield', 'nap', 'gate', 'research'):
+                raise _UnknownOp(f'unknown listener {spec}')
+
+            def enter(e):
+                k = ev_key(cls, e)
+                lrec['enter'].append([cls, idx, now()] + k + [cur[0]])
+                return k
+
+            def leave(k, how):
+                lrec['exit'].append([cls, idx, now()] + k + [how, cur[0]])
+
+            if kind == 'plain':
+                def f(e):
+                    leave(enter(e), 'ok')
+                return f
+            if kind == 'raise':
+                def f(e):
+                    leave(enter(e), 'raised')
+                    raise RuntimeError('listener failed')
+                return f
+            if kind == 'remove':
+                # a listener that removes the request it is told about (on the spec[1]-th event it sees)
+                def f(e):
+                    k = enter(e)
+                    n = seen[0]
+                    seen[0] += 1
+                    if n == spec[1]:
+                        try:
+                            m.remove_request(e.query)
+                        except KeyError:
+                            pass
+                        else:
+                            if tracker.get(e.query.ticket) == k[0]:
+                                del tracker[e.query.ticket]
+                            events.append([now(), 'U', e.query.ticket, k[0], None, None])
+                    leave(k, 'ok')
+                return f
+
+            async def g(e):
+                k = enter(e)
+                try:
+                    if kind == 'yield':
+                        for _ in range(spec[1]):
+                            await asyncio.sleep(0)
+                    elif kind == 'nap':
+                        await asyncio.sleep(spec[1])
+                    elif kind == 'gate':
+                        fut = loop.create_future()
+                        lgates.append([fut, cls, idx, k[0], e.query.ticket])
+                        await fut
+                    elif kind == 'research':
+                        n = seen[0]
+                        seen[0] += 1
+                        if n < spec[1]:
+                            await m.search('again')
+                except asyncio.CancelledError:
+                    leave(k, 'cancelled')
+                    raise
+                leave(k, 'ok')
+            return g
+
+        ev_class = {'S': SearchRequestSentEvent, 'R': SearchResultEvent, 'X': SearchRequestRemovedEvent}
+        for cls in ('S', 'R', 'X'):
+            for idx, spec in enumerate(lis.get(cls, [])):
+                fn = make_listener(cls, idx, spec)
+                bus.register(ev_class[cls], fn)
+                keep.append(fn)
+
+        def release_listeners(ticket=None):
+            n = 0
+            for g in lgates:
+                if not g[0].done() and (ticket is None or (g[1] == 'X' and g[4] == ticket)):
+                    g[0].set_result(None)
+                    n += 1
+            return n
+
         def task_done(t):
             if t.cancelled():
                 return
@@ -169,7 +281,8 @@ def _run_impl(case: dict) -> dict:
                 if not g[0].done():
                     g[0].set_result(None)
 
-        for op in case['ops']:
+        for opi, op in enumerate(case['ops']):
+            cur[0] = opi
             del events[:]
             del errors[:]
             flags['clobber'] = False
@@ -194,6 +307,27 @@ def _run_impl(case: dict) -> dict:
                         st['ret'] = 'removed'
                     except KeyError:
                         st['ret'] = 'KeyError'
+                elif k == 'removeobj':
+                    # remove_request(<the SearchRequest object last announced with that ticket>) — the other form
+                    # of the public call; an unknown ticket is passed as the int
+                    arg = objs[by_ticket[op[1]]] if op[1] in by_ticket else op[1]
+                    try:
+                        m.remove_request(arg)
+                        tracker.pop(op[1], None)
+                        st['ret'] = 'removed'
+                    except KeyError:
+                        st['ret'] = 'KeyError'
+                elif k == 'stop':
+                    # SearchManager.stop(): the cancelled tasks finish when the loop next runs
+                    st['stopped'] = len(await m.stop())
+                elif k == 'lrelease':
+                    release_listeners()
+                elif k == 'resume':
+                    # the suspended SearchRequestRemovedEvent listener holding the report for that ticket returns;
+                    # the loop then runs (at the present instant) until nothing is ready
+                    if not release_listeners(op[1]):
+                        st['ret'] = 'noemit'
+                    await simloop.settle()
                 elif k == 'reply':
                     msg = PeerSearchReply.Request(username='peer', ticket=op[1], results=[], has_slots_free=True,
                                                   avg_speed=0, queue_size=0)
@@ -254,24 +388,36 @@ def _run_impl(case: dict) -> dict:
             st['susp'] = sum(1 for g in gates if g[1] and not g[0].done())
             st['susp_sent'] = sum(1 for g in sgates if not g.done())
             st['stored'] = [[i, len(o.results)] for i, o in enumerate(objs)]
+            if lis:
+                # removal reports still running: [ticket, listeners entered so far]
+                st['rep'] = sorted([tk, sum(1 for x in lrec['enter'] if x[0] == 'X' and x[3] == r)]
+                                   for r, tk, task in emissions if task is not None and not task.done())
+                st['told'] = [[x[2], x[1], objs[x[3]].ticket] for x in lrec['enter'] if x[0] == 'X' and x[5] == opi]
+                st['aborted'] = [[x[2], x[1], objs[x[3]].ticket] for x in lrec['exit']
+                                 if x[0] == 'X' and x[6] == opi and x[5] == 'cancelled']
             steps.append(st)
         # let pending done-callbacks run (same instant) so that every task error is seen
         del errors[:]
         del events[:]
+        cur[0] = len(case['ops'])
         release_gates()
-        for _ in range(12):       # a released wishlist round goes on to its next item, which is gated again
-            release_sent()
+        for _ in range(24):       # a released wishlist round goes on to its next item, which is gated again;
+            release_sent()        # a released listener hands the event on to the next one, which may wait too
+            release_listeners()
             await simloop.settle()
-            if all(g.done() for g in sgates):
+            if all(g.done() for g in sgates) and all(g[0].done() for g in lgates):
                 break
         return {'late_errors': [list(x) for x in errors], 'late_events': [list(x) for x in events],
-                'handlers_pending': sum(1 for t in handler_tasks if not t.done()), 'keep': len(keep)}
+                'handlers_pending': sum(1 for t in handler_tasks if not t.done()), 'keep': len(keep),
+                'lis': {k: [list(x) for x in v] for k, v in lrec.items()} if lis else None,
+                'tickets': {str(i): o.ticket for i, o in enumerate(objs)}}
 
     try:
         from vlib import simloop as _sl
         res, loop = _sl.run(main, start=START, wall_timeout=30.0)
         tail = {'late_errors': res['late_errors'], 'loop_exceptions': loop.exceptions,
-                'late_events': res['late_events'], 'handlers_pending': res['handlers_pending']}
+                'late_events': res['late_events'], 'handlers_pending': res['handlers_pending'], 'lis': res['lis'],
+                'tickets': res['tickets']}
     except Exception as e:  # harness-level failure of this case (e.g. the loop does not quiesce)
         tail = {'late_errors': [], 'loop_exceptions': [], 'harness': f'{type(e).__name__}: {e}'}
     return {'steps': steps, 'tail': tail}
@@ -284,15 +430,22 @@ def _line(st: dict) -> str:
             evs.append((t, ORDER['E'], arg, f'{t}:E:{arg}'))
         else:
             evs.append((t, -1, 0, f'{t}:EXC:{typ}'))
+    # the removal report as seen by the extra SearchRequestRemovedEvent listeners (`notify` family): listener i is
+    # told (T<i>); a listener got CancelledError after i listeners had been told (A<i>)
+    for t, idx, tk in st.get('told', []):
+        evs.append((t, ORDER['T'], tk, f'{t}:T{idx}:{tk}'))
+    for t, idx, tk in st.get('aborted', []):
+        evs.append((t, ORDER['A'], tk, f'{t}:A{idx + 1}:{tk}'))
     toks = [x[3] for x in sorted(evs)]
     if st.get('raised'):
         toks.append('RAISED:' + st['raised'])
-    if st['ret'] in ('KeyError', 'noreq', 'notimer'):
+    if st['ret'] in ('KeyError', 'noreq', 'notimer', 'noemit'):
         toks.append(st['ret'])
     if st['clobber']:
         toks.append('clobber')
+    rep = f" rep={','.join(f'{a}:{b}' for a, b in st['rep'])}" if 'rep' in st else ''
     return (f"{' '.join(toks)} | live={','.join(map(str, st['after']))} armed={','.join(map(str, st['armed']))} "
-            f"res={','.join(f'{a}:{b}' for a, b in st['res'])} pend={st['pend']} now={st['t1']}")
+            f"res={','.join(f'{a}:{b}' for a, b in st['res'])} pend={st['pend']}{rep} now={st['t1']}")
 
 
 def _impl_lines(tr: dict) -> list[str]:
@@ -307,9 +460,10 @@ def _impl_lines(tr: dict) -> list[str]:
 
 def _model_lines(case: dict) -> list[str]:
     c = case['cfg']
-    out = [f"new {c['rt']} {c['wt']} {c['store']} {c['initial']} {sum(1 for e in c['items'] if e)}"]
+    out = [f"new {c['rt']} {c['wt']} {c['store']} {c['initial']} {sum(1 for e in c['items'] if e)}"
+           + (f" {len(c['lis'].get('X', []))}" if c.get('lis') else '')]
     for op in case['ops']:
-        out.append(' '.join(str(x) for x in op))
+        out.append(' '.join(str(x) for x in (['remove'] + op[1:] if op[0] == 'removeobj' else op)))
     return out
 
 
@@ -335,7 +489,10 @@ def _monitor(case: dict, tr: dict) -> list[Violation]:
         return vs
     for i, (op, st) in enumerate(zip(case['ops'], tr['steps'])):
         k = op[0]
-        where = f'op #{i} {op}'
+        if k == 'removeobj':          # remove_request(<request object>): the same call, the same obligations
+            k, op = 'remove', ['remove'] + op[1:]
+        ran = k in ('sleep', 'resume')    # ops in which the loop runs (`resume` = release one listener + settle)
+        where = f'op #{i} {case["ops"][i]}'
         if st.get('raised'):
             bad('C18-op-raised-' + st['raised'],
                 f'{where}: {st["raised"]} escaped from the library into its caller '
@@ -371,7 +528,7 @@ def _monitor(case: dict, tr: dict) -> list[Violation]:
         if k == 'wlmsg':
             wl_interval = op[1]
         # a timer armed by an earlier call starts counting when the loop next runs (its task's first step)
-        if k == 'sleep':
+        if ran:
             for r in reqs.values():
                 if r['live'] and r.get('arm') is not None:
                     r.update(deadline=st['t0'] + r['arm'], arm=None)
@@ -396,7 +553,7 @@ def _monitor(case: dict, tr: dict) -> list[Violation]:
                 reqs[rid] = {'ticket': tk, 'live': True, 'deadline': None, 'arm': T, 'draw': draws,
                              'by_user': False, 'removed_events': 0, 'created': t,
                              'why': f'created at t={t} with timeout {T}'}
-                if k == 'sleep' and T is not None:       # created by a wishlist round while the loop runs
+                if ran and T is not None:       # created by a wishlist round / a search task while the loop runs
                     reqs[rid].update(deadline=t + T, arm=None)
                 live[tk] = rid
             elif kind == 'U':
@@ -428,7 +585,7 @@ def _monitor(case: dict, tr: dict) -> list[Violation]:
                 elif t < r['deadline']:
                     bad('C18-removed-early', f'{where}: request {tk} removed at t={t}, before its timeout '
                         f't={r["deadline"]} ({r["why"]})', observed=t, required=r['deadline'])
-                elif k == 'sleep' and t != max(r['deadline'], st['t0']):
+                elif ran and t != max(r['deadline'], st['t0']):
                     bad('C18-removed-late', f'{where}: request {tk} removed at t={t}, timeout was t={r["deadline"]}',
                         observed=t, required=max(r['deadline'], st['t0']))
                 if r['live']:
@@ -481,6 +638,11 @@ def _monitor(case: dict, tr: dict) -> list[Violation]:
                 reqs[rid].update(live=False, by_user=True)
         elif k == 'remove' and st['ret'] == 'KeyError' and op[1] in live:
             bad('C18-registry-mismatch', f'{where}: remove_request raised KeyError for a registered ticket')
+        elif k == 'stop':
+            # stop() cancels the wishlist task and the Timer of every registered request (they stay registered)
+            for r in reqs.values():
+                if r['live']:
+                    r.update(deadline=None, arm=None, why='timer cancelled by stop()')
         elif k in ('tcancel', 'tresched') and st['ret'] in ('armed', 'idle'):
             rid = live.get(op[1])
             if rid is not None:
@@ -495,7 +657,7 @@ def _monitor(case: dict, tr: dict) -> list[Violation]:
                 required=sorted(live.keys()))
             return vs
         # ---- after the loop has run, nothing that is due is still registered
-        if k == 'sleep':
+        if ran:
             for rid, r in reqs.items():
                 if r['live'] and r['deadline'] is not None and r['deadline'] <= st['t1']:
                     bad('C18-timeout-missed', f'{where}: request {r["ticket"]} still registered at t={st["t1"]}, its '
@@ -521,6 +683,7 @@ def _monitor(case: dict, tr: dict) -> list[Violation]:
         if not g['answered'] and r is not None and r['live'] and not t.get('handlers_pending'):
             bad('C18-result-missing', f'op #{g["op"]}: the reply for ticket {g["tk"]} was never reported although '
                 'the request stayed registered', observed=0, required=1)
+    _listener_check(case, tr, bad)
     if t.get('handlers_pending'):
         bad('C18-handler-stuck', 'a reply handler did not finish after its connection was released',
             observed=t['handlers_pending'])
@@ -528,6 +691,65 @@ def _monitor(case: dict, tr: dict) -> list[Violation]:
         bad('C18-loop-error', 'exception reached the loop exception handler / a library task',
             observed=[t['late_errors'], t['loop_exceptions']])
     return vs
+
+
+def _listener_check(case: dict, tr: dict, bad) -> None:
+    """"reported exactly once" per listener: every SearchRequestRemovedEvent / SearchResultEvent that was emitted
+    (= seen by the first listener of its class, the harness's recorder) is handed to EVERY other registered listener
+    of that class exactly once, and no listener is aborted (CancelledError) while it handles it. A listener that has
+    not been told yet is only counted as missed when the delivery is over (no listener of that class is still busy
+    with the same event). SearchRequestSentEvent is not part of the property statement: not judged."""
+    L = tr['tail'].get('lis')
+    specs = case['cfg'].get('lis')
+    if not L or not specs:
+        return
+    ops = case['ops']
+    for cls, name in (('X', 'removal'), ('R', 'result')):
+        n = len(specs.get(cls, []))
+        if not n:
+            continue
+        prim: dict = {}
+        for c, t, rid, aux, opi in L['prim']:
+            if c == cls:
+                prim.setdefault((rid, aux), []).append((t, opi))
+        ent: dict = {}
+        for c, idx, t, rid, aux, opi in L['enter']:
+            if c == cls:
+                ent.setdefault((rid, aux), {}).setdefault(idx, []).append((t, opi))
+        exi: dict = {}
+        for c, idx, t, rid, aux, how, opi in L['exit']:
+            if c == cls:
+                exi.setdefault((rid, aux), {}).setdefault(idx, []).append((t, opi, how))
+        for key in sorted(set(prim) | set(ent)):
+            want = len(prim.get(key, []))
+            tk = tr['tail'].get('tickets', {}).get(str(key[0]))
+            what = (f'the removal of request #{key[0]} (ticket {tk})' if cls == 'X' else
+                    f'result #{key[1]} for request #{key[0]} (ticket {tk})')
+            busy = any(len(ent.get(key, {}).get(j, [])) > len(exi.get(key, {}).get(j, [])) for j in range(n))
+            for j in range(n):
+                got = ent.get(key, {}).get(j, [])
+                outs = exi.get(key, {}).get(j, [])
+                cancelled = [x for x in outs if x[2] == 'cancelled']
+                def at(x):
+                    return f't={x[0]} (' + (f'op #{x[1]} {ops[x[1]]}' if x[1] < len(ops) else 'end of case') + ')'
+                if cancelled:
+                    bad(f'C18-{name}-listener-aborted',
+                        f'{what}, emitted at {at(prim[key][0]) if key in prim else "?"}: listener #{j + 1} '
+                        f'({specs[cls][j]}) got CancelledError at {at(cancelled[0])} while handling it — the task that '
+                        'runs EventBus.emit was cancelled; the listeners after it are never told',
+                        observed={'listener': j + 1, 'entered': got, 'left': outs}, required='told exactly once, not aborted')
+                    return
+                if len(got) > want:
+                    bad(f'C18-{name}-told-twice', f'{what}: emitted {want}x but listener #{j + 1} ({specs[cls][j]}) '
+                        f'was told {len(got)}x', observed=len(got), required=want)
+                    return
+                if len(got) < want and not busy:
+                    bad(f'C18-{name}-not-told', f'{what}, emitted at {at(prim[key][0])}: listener #{j + 1} '
+                        f'({specs[cls][j]}) was told {len(got)}x although the delivery is over '
+                        f'({n} extra listeners registered; told: '
+                        f'{[len(ent.get(key, {}).get(q, [])) for q in range(n)]})',
+                        observed=len(got), required=want)
+                    return
 
 
 # ------------------------------------------------------------------------------------------------
